@@ -45,10 +45,10 @@ theorem C01_tables :
     PW.Gen.Slicer.quadVertOffsets = [1, 2] ∧ PW.Gen.Slicer.quadPointOffsets = [2, 0] ∧
     PW.Gen.Slicer.triPointOffsets = [0, 2] ∧
     PW.Gen.Slicer.quadsToTrisEven = [0, 1, 2] ∧ PW.Gen.Slicer.quadsToTrisOdd = [0, 2, 3] ∧
-    PW.Gen.Slicer.onedgeSrc = "np.logical_and(np.logical_and(signs_asum >= 2, np.abs(signs_sum) <= 1), mask)" ∧
-    PW.Gen.Slicer.insideSrc = "np.logical_or(signs_sum == -signs_asum, ~mask)" ∧
-    PW.Gen.Slicer.onedgeQuadSrc = "np.logical_and(onedge, signs_sum < 0).nonzero()[0]" ∧
-    PW.Gen.Slicer.onedgeTriSrc = "np.logical_and(onedge, signs_sum >= 0).nonzero()[0]" ∧
+    PW.Gen.Slicer.onedgeSrc = "and(mask; np.abs(signs_sum) <= 1; signs_asum >= 2)" ∧
+    PW.Gen.Slicer.insideSrc = "or(signs_sum == -signs_asum; ~mask)" ∧
+    PW.Gen.Slicer.onedgeQuadSrc = "and(onedge; signs_sum < 0).nonzero()[0]" ∧
+    PW.Gen.Slicer.onedgeTriSrc = "and(onedge; signs_sum >= 0).nonzero()[0]" ∧
     PW.Gen.Slicer.distSrc = "np.clip(np.divide(num, denom), 0.0, 1.0)" := by
   refine ⟨by decide, by decide, by decide, by decide, by decide, by decide, by decide, by decide, by decide, by decide⟩
 
